@@ -135,7 +135,9 @@ def _compare_maps(run, key, got, exp, skip, assume, names, case, finding, sample
         run.counterexample(key, finding, f"{case.get('op')} shift={case.get('shift')}: some output cell differs from the documented formula",
                            dict(case, values={n: [v.numerator, v.denominator] for n, v in vals.items()}))
         return False
-    run.unknown(key, f"solver {r}")
+    # the solver did not decide (EXP/LOG are uninterpreted): try the default tag values on the real float code; a violation that
+    # reproduces there is reported (it is a real one), otherwise the obligation stays inconclusive
+    run.counterexample(key, finding, f"{case.get('op')} shift={case.get('shift')}: solver {r}; candidate = default values", dict(case, values=_default_values(names)))
     return False
 
 
@@ -194,8 +196,7 @@ def main(run):
         "tty at start-of-year periods: asserted 'value unchanged' only for diff and roc (for diff_log/pct the documented "
         "formula is ambiguous and those cells are not asserted)",
     ]
-    run.outside += ["daily frequency for the annualised variants (factor 365 gives 365-fold products) and for 'yoy' "
-                    "(the documented formula does not say whether a year is 365 days or a calendar year)", "lengths beyond 15 periods",
+    run.outside += ["daily frequency for 'yoy' (the documented formula does not say whether a year is 365 days or a calendar year)", "lengths beyond 15 periods",
                     "cumulation with interior missing values: only 'no wrong value' is asserted, not full reproduction"]
     run.stubs.append('Series.set_data(dates, None) on object data is executed as set_data(dates, NaN) (numpy float-array semantics of None)')
     with npproxy.installed(proxy, *mods, extra=[none_is_nan_patch(ir)]):
@@ -231,8 +232,6 @@ def main(run):
             # --- annualised
             a = f or 1
             for func, form in _ACHANGE.items():
-                if fr == "D":
-                    break       # 365-fold products: outside the claim
                 key = f"{func}:{fr}{off}:n{n}v{nvar}m{list(miss)}"
                 case = dict(base, kind="achange", op=func, shift=-1)
                 try:
@@ -252,8 +251,6 @@ def main(run):
             convs = [("roc_from_pct", "pct", "roc"), ("pct_from_roc", "roc", "pct"), ("pct_from_apct", "apct", "pct"),
                      ("roc_from_apct", "apct", "roc"), ("roc_from_aroc", "aroc", "roc")]
             for conv, src, dst in convs:
-                if fr == "D" and "apct" in src + dst or fr == "D" and "aroc" in src + dst:
-                    continue
                 key = f"{conv}:{fr}{off}:n{n}v{nvar}m{list(miss)}"
                 case = dict(base, kind="conversion", op=conv, src=src, dst=dst, shift=-1)
                 try:
